@@ -274,7 +274,7 @@ pub async fn reads_of(node: &ReplicatedShardedState<VerifTime>) -> BTreeMap<Stri
             }
             other => other.to_string(),
         };
-        let ttl = resp::show(&node.execute(resp::parse(&resp::argv(&["TTL", key])).unwrap()).await);
+        let ttl = resp::show(&node.execute(resp::parse(&resp::argv(&["PTTL", key])).unwrap()).await);
         out.insert(key.to_string(), format!("{v} ttl{ttl}"));
     }
     out
@@ -292,7 +292,7 @@ pub async fn views_of(node: &ReplicatedShardedState<VerifTime>) -> (BTreeMap<Str
         let cv = client_view(v);
         if cv != "absent" {
             let ttl = match v.expiry_ms {
-                Some(ms) => format!(":{}", ms / 1000),
+                Some(ms) => format!(":{}", ms),
                 None => ":-1".to_string(),
             };
             views.insert(k.clone(), format!("{cv} ttl{ttl}"));
